@@ -34,6 +34,8 @@ type tracePager struct {
 	lockFail bool
 	// gate, when set, is called before every event is recorded (scheduler gate for replays)
 	gate func(ev event)
+	// preLock, when set, is called at the beginning of RLock, before the pager's lock call
+	preLock func()
 	// postGate, when set, is called after the event has been recorded: the state change has
 	// happened and is not yet visible to the caller (blocking here parks the operation)
 	postGate func(ev event)
@@ -99,6 +101,9 @@ func (t *tracePager) Page(n int, pagesize int) ([]byte, error) {
 }
 
 func (t *tracePager) RLock() error {
+	if t.preLock != nil {
+		t.preLock() // scheduler gate BEFORE the lock is asked for (nothing is recorded: no state changed yet)
+	}
 	if t.lockFail {
 		t.add(event{"l", "injected lock failure"})
 		return errors.New("injected lock failure")
